@@ -265,7 +265,14 @@ def c11_3(rep, ix):
     # the accumulated mode set is the union with exactly that list
     upd = [n for n in walk_shallow(fn) if isinstance(n, ast.AugAssign) and isinstance(n.op, ast.BitOr) and u(n.target).endswith("_modes")]
     acc = {u(s_.value.func.value) for s_ in appends} | {u(s_.targets[0].value) for s_ in stores}
-    rep.check(len(upd) == 1 and u(upd[0].value) in {"set(%s)" % a_ for a_ in acc} | {"set(%s)" % u(loop.iter)} and pos(upd[0]) > pos(loop), R, ix.site(f, upd[0]) if upd else ix.site(f),
+    upd_src = [u(n.value) for n in upd]
+    # the same union written as a method call: <program>._modes.update(<checked list>)
+    for n in walk_shallow(fn):
+        if isinstance(n, ast.Expr) and isinstance(n.value, ast.Call) and isinstance(n.value.func, ast.Attribute) and n.value.func.attr == "update" and u(n.value.func.value).endswith("_modes") \
+                and len(n.value.args) == 1:
+            upd.append(n)
+            upd_src.append("set(%s)" % u(n.value.args[0]) if not u(n.value.args[0]).startswith("set(") else u(n.value.args[0]))
+    rep.check(len(upd) == 1 and upd_src[0] in {"set(%s)" % a_ for a_ in acc} | {"set(%s)" % u(loop.iter)} and pos(upd[0]) > pos(loop), R, ix.site(f, upd[0]) if upd else ix.site(f),
               "the program's mode set is updated, after the check, by union with the checked mode list", key="modes union")
 
 
